@@ -586,6 +586,10 @@ def full_programs(draw, switches=frozenset(), max_lines=10, operand_depth=1, wit
                 stmts.append(fg.misc())
         if draw(st.integers(0, 24)) == 0 and stmts and stmts[-1][0] not in ("if", "rem"):
             stmts.append(fg.scale_stmt())
+        if draw(st.integers(0, 14)) == 0 and stmts and not any(s_[0] == "rem" for s_ in stmts):
+            # an empty statement: '::', a colon at the end of the line, a colon in front of the first statement
+            stmts.insert(draw(st.integers(0, len(stmts))) if stmts[-1][0] != "if" else draw(st.integers(0, len(stmts) - 1)), ["empty"])
+            fg.kinds.add("empty_statement")
         if not stmts:
             stmts.append(["rem", " empty", "REM"])
         # REM swallows the rest of the line; DATA ends at ':' - keep REM last
